@@ -304,7 +304,7 @@ class C14(base.Engine):
     pid = 'C14'
     level = 'fault_enumeration'
     technique = 'deterministic simulation: helper-pipe proxy injects death at every request index x protocol phase; model-based judge + undisturbed reference run'
-    budgets = (80, 1500)
+    budgets = (80, 2400)
     assumptions = [
         'the helper is a real OS process; interleavings finer than the request boundary are not scheduled (the listener is single-threaded and strictly request/reply)',
         '"at most one query" is read as at most one Script created after the death; Scripts bound to the dead helper at construction may keep failing with InternalError',
@@ -383,7 +383,7 @@ class C14(base.Engine):
             if tier == 'thorough':
                 # 1. every single-fault point of as many (non-lifecycle) scenarios as fit
                 #    the cap, smallest request count first
-                cap = int(os.environ.get('VERIF_C14_SWEEP_CAP', '6000'))
+                cap = int(os.environ.get('VERIF_C14_SWEEP_CAP', '4500'))
                 swept = []
                 total = 0
                 for s in sorted([x for x in ok_scen if x['mode'] != 'lifecycle'], key=lambda x: x['_nreq']):
